@@ -65,6 +65,19 @@ def buildSM (c : Case) : Verdict :=
         if raw0 == none && rawstart == none && rawafter == none && o.final.raw == [] && w1.isSome then .ok s!"golang,{srv},{lenTag}"
         else .diff s!"golang,{srv}" "Raw is empty before and after the handshake"
       else
+      if let some mode := c.output.get "echmode" then
+        -- Encrypted Client Hello: the marshalling of the outer hello (HPKE) is outside this model, but both
+        -- sentences of the property speak about the bytes on the wire, whatever produced them: the first
+        -- record is Raw as rebuilt at handshake start, and Raw afterwards is the last (outer) hello sent.
+        let tag := s!"ech-{mode},{if c.output.get "echacc" == some "1" then "accepted" else "not-accepted"},{if w2.isSome then "two-hellos" else if w1.isSome then "one-hello" else "no-hello"},{lenTag}"
+        match w1 with
+        | none => .ok tag
+        | some w =>
+          if rawstart ≠ some w then .propFail tag "first-record-is-not-raw-at-handshake-start"
+          else if rawafter ≠ (w2.orElse fun _ => some w) then .propFail tag "raw-after-handshake-is-not-the-last-hello-sent"
+          else if (parseCH w).isNone then .propFail tag "first-hello-does-not-parse"
+          else .ok tag
+      else
       match Drv.C02.parseState c with
       | none => .bad "unparsable state"
       | some s0 =>
